@@ -16,7 +16,7 @@ sys.path.insert(0, HERE)
 import gen as hvxgen  # noqa: E402
 
 VERUS = os.environ.get("VERUS_BIN", "verus")
-TRUST_PAT = re.compile(r"assume_specification|external_body|external_trait_specification|\buninterp\b|\badmit\(|\bassume\(|\baxiom\b|external_type_specification")
+TRUST_PAT = re.compile(r"assume_specification|external_body|external_trait_specification|\buninterp\b|\badmit\(|\bassume\(|\baxiom\b|external_type_specification|/\*TRUSTED[^*]*\*/")
 
 
 def run_verus(path: str, timeout: int = 600) -> dict:
